@@ -525,7 +525,7 @@ pub fn sym_conformance_lc3_lp0_pb2() {
     one_symbol::<6144, 1302, true>()
 }
 
-//@ harness props=C05,C15 tier=quick unwind=10 unwindset=RangeDecoder.*E3getB:28,decode_distance:28 mem_gb=10 timeout=1500 native=no opt_covers=matched_literal,longest_match_48_decisions,short_rep,marker
+//@ harness props=C05,C15,C13 tier=quick unwind=10 unwindset=RangeDecoder.*E3getB:28,decode_distance:28 mem_gb=10 timeout=1500 native=no opt_covers=matched_literal,longest_match_48_decisions,short_rep,marker
 //@ bound: ONE symbol of process_next_inner(update=false) (the streaming dry run) from every valid state, lc=0 lp=0 pb=0..: symbolic props lc+lp<=4
 #[cfg_attr(kani, kani::proof)]
 #[cfg_attr(kani, kani::stub(std::fmt::format, crate::verif_common::stub_format))]
@@ -1098,7 +1098,7 @@ pub fn header_from_header_full() {
     header_any::<0, 14>()
 }
 
-//@ harness props=C08,C07,C09 tier=quick unwind=16 unwindset=default_read_exact:4 mem_gb=3 timeout=300
+//@ harness props=C08,C07,C09,C16 tier=quick unwind=16 unwindset=default_read_exact:4 mem_gb=3 timeout=300
 //@ bound: read_header(ReadHeaderButUseProvided(any)) on 14 symbolic bytes
 #[cfg_attr(kani, kani::proof)]
 #[cfg_attr(kani, kani::stub(std::fmt::format, crate::verif_common::stub_format))]
@@ -1107,7 +1107,7 @@ pub fn header_use_provided_13() {
     header_any::<1, 14>()
 }
 
-//@ harness props=C08,C07,C09 tier=quick unwind=16 unwindset=default_read_exact:4 mem_gb=3 timeout=300
+//@ harness props=C08,C07,C09,C16 tier=quick unwind=16 unwindset=default_read_exact:4 mem_gb=3 timeout=300
 //@ bound: read_header(UseProvided(any)) on 14 symbolic bytes (5-byte header)
 #[cfg_attr(kani, kani::proof)]
 #[cfg_attr(kani, kani::stub(std::fmt::format, crate::verif_common::stub_format))]
@@ -1135,7 +1135,7 @@ pub fn header_truncated_3() {
 }
 
 
-//@ harness props=C08,C07,C05,C13 tier=quick unwind=16 unwindset=default_read_exact:4 mem_gb=3 timeout=300 opt_covers=max_props,small_dict_clamped
+//@ harness props=C08,C07,C05,C13,C15 tier=quick unwind=16 unwindset=default_read_exact:4 mem_gb=3 timeout=300 opt_covers=max_props,small_dict_clamped
 //@ bound: read_header(ReadHeaderButUseProvided(any)) with only 7 of 13 bytes available (cut inside the size field): reported as HeaderTooShort (what the streaming decoder waits on)
 #[cfg_attr(kani, kani::proof)]
 #[cfg_attr(kani, kani::stub(std::fmt::format, crate::verif_common::stub_format))]
@@ -1144,7 +1144,7 @@ pub fn header_truncated_use_provided_7() {
     header_any::<1, 7>()
 }
 
-//@ harness props=C08,C07,C05,C13 tier=quick unwind=16 unwindset=default_read_exact:4 mem_gb=3 timeout=300 opt_covers=max_props,small_dict_clamped
+//@ harness props=C08,C07,C05,C13,C15 tier=quick unwind=16 unwindset=default_read_exact:4 mem_gb=3 timeout=300 opt_covers=max_props,small_dict_clamped
 //@ bound: read_header(ReadHeaderButUseProvided(any)) with only 12 of 13 bytes available: reported as HeaderTooShort (what the streaming decoder waits on)
 #[cfg_attr(kani, kani::proof)]
 #[cfg_attr(kani, kani::stub(std::fmt::format, crate::verif_common::stub_format))]
@@ -1162,7 +1162,7 @@ pub fn header_truncated_use_provided_3() {
     header_any::<1, 3>()
 }
 
-//@ harness props=C08,C07,C05,C13 tier=quick unwind=16 unwindset=default_read_exact:4 mem_gb=3 timeout=300 opt_covers=max_props,small_dict_clamped
+//@ harness props=C08,C07,C05,C13,C15 tier=quick unwind=16 unwindset=default_read_exact:4 mem_gb=3 timeout=300 opt_covers=max_props,small_dict_clamped
 //@ bound: read_header(ReadFromHeader) with only 6 of 13 bytes available: reported as HeaderTooShort (what the streaming decoder waits on)
 #[cfg_attr(kani, kani::proof)]
 #[cfg_attr(kani, kani::stub(std::fmt::format, crate::verif_common::stub_format))]
@@ -3700,3 +3700,38 @@ pub fn lib_lzma_decompress_glue_use_provided_d12345678() {
     lib_lzma_glue::<2, 0x12345678>()
 }
 
+
+
+//@ harness props=C09,C10,C14 tier=quick unwind=8 unwindset=process_mode:5,default_read_exact:4,extend_with:3 mem_gb=6 timeout=600 native=no
+//@ bound: raw LzmaDecoder built with dictionary size 16 (below the header clamp) and a symbolic memlimit option: the window is created with exactly these parameters (constructor observed)
+#[cfg_attr(kani, kani::proof)]
+#[cfg_attr(kani, kani::stub(std::fmt::format, crate::verif_common::stub_format))]
+#[cfg_attr(kani, kani::stub(std::io::Error::is_interrupted, crate::verif_common::stub_not_interrupted))]
+#[cfg_attr(kani, kani::stub(crate::decode::lzma::DecoderState::process_next_inner, crate::decode::lzma::verif_h::abs_symbol))]
+#[cfg_attr(kani, kani::stub(crate::decode::lzbuffer::LzCircularBuffer::from_stream, crate::decode::lzbuffer::verif_h::circ_from_stream_observed))]
+#[cfg_attr(kani, kani::stub(crate::decode::lzma::DecoderState::new, crate::decode::lzma::verif_h::new_scripted_from_statics))]
+pub fn raw_lzma_decompress_window_params() {
+    use crate::decode::lzbuffer::verif_h::{OBS_CIRC_CALLS, OBS_CIRC_DICT, OBS_CIRC_MEMLIMIT};
+    use std::sync::atomic::Ordering::Relaxed;
+    let mut t = Tape::<32>::new();
+    let f = [t.u8(), t.u8(), t.u8(), t.u8(), t.u8(), t.u8(), t.u8(), 0xEE];
+    let ml_some = t.bool();
+    let ml = t.usize();
+    let mut dec = match mk_raw_decoder(16, Some(1), if ml_some { Some(ml) } else { None }, [script(2, K_LIT), script(20, K_LIT), script(20, K_LIT), script(20, K_LIT)]) {
+        Some(d) => d,
+        None => {
+            vassert!(false, "raw decoder: the constructor accepts these parameters");
+            return;
+        }
+    };
+    OBS_CIRC_CALLS.store(0, Relaxed);
+    let mut rd = ArrReader::<8>::new(f, 8);
+    let mut sink = CountSink::new();
+    let r = dec.decompress(&mut rd, &mut sink);
+    forget(r);
+    vassert!(OBS_CIRC_CALLS.load(Relaxed) == 1, "one-shot entry: builds exactly one window");
+    vassert!(OBS_CIRC_DICT.load(Relaxed) == 16, "raw decoder: the window's dictionary size is the one the decoder was given (no clamp outside the header parser)");
+    vassert!(OBS_CIRC_MEMLIMIT.load(Relaxed) == if ml_some { ml } else { usize::MAX }, "one-shot entry: options.memlimit reaches the window (none = unlimited)");
+    vcover!(true, "end_reached");
+    forget(dec);
+}
